@@ -233,6 +233,32 @@ def run_case(kind, idx, rng, sh):
                 raise Bad('get_TU_by_sig8(absent) returned')
             except KeyError:
                 pass
+        # a fresh object whose unit cache is filled with holes (units fetched by header offset in some order, as lookup
+        # tables do) before offsets are resolved to their units and entries
+        if len(B.units) >= 2:
+            di2, streams2 = G.make_dwarfinfo(B.sec, le, TracedBytesIO)
+            pick = rng.sample(range(len(B.units)), rng.randint(1, len(B.units) - 1))
+            for i in pick:
+                poison(list(streams2.values()), rng)
+                if di2.get_CU_at(B.units[i].off).cu_offset != B.units[i].off:
+                    raise Bad('get_CU_at')
+            probes = []
+            for i, U in enumerate(B.units):
+                last = U.off + U.size - 1
+                probes += [(i, U.off), (i, last), (i, rng.randint(U.off, last))] + [(i, d.off) for d in rng.sample(U.dies, min(2, len(U.dies)))]
+            rng.shuffle(probes)
+            for i, off in probes:
+                poison(list(streams2.values()), rng)
+                cu = di2.get_CU_containing(off)
+                if cu.cu_offset != B.units[i].off:
+                    raise Bad('get_CU_containing after units were fetched by header offset (unit cache with holes)',
+                              offset=off, got=cu.cu_offset, want=B.units[i].off, fetched=[B.units[j].off for j in pick])
+            for i, U in enumerate(B.units):
+                for d in rng.sample(U.dies, min(2, len(U.dies))):
+                    got = di2.get_DIE_from_refaddr(d.off)
+                    if got.offset != d.off or got.cu.cu_offset != U.off:
+                        raise Bad('get_DIE_from_refaddr after units were fetched by header offset', offset=d.off)
+            sh.count('unit_caches_with_holes_probed')
     except Bad as b:
         sh.violation('C04:' + b.key, le=le, **b.d)
         return
